@@ -356,6 +356,35 @@ func GenSched(r *sim.Rand, tier string) sim.Script {
 		}
 		s.Tasks = append(s.Tasks, ops)
 	}
+	if r.Chance(1, 3) && len(s.Tasks) >= 2 {
+		// a transaction on a block of its own (nobody else touches that block): one task commits the transaction
+		// while others look its keys up through the same transaction cache
+		xb := base + nb
+		s.Ops = append(s.Ops, Op{K: "blk", P: base + nb - 1}, Op{K: "txn", B: xb})
+		var keys []string
+		for i := 1 + r.Intn(3); i > 0; i-- {
+			k := fmt.Sprintf("k%d", r.Intn(nKeys))
+			keys = append(keys, k)
+			nv++
+			if r.Chance(1, 4) {
+				s.Ops = append(s.Ops, Op{K: "tset", T: 0, Y: k, V: fmt.Sprintf("v%d", nv)}, Op{K: "trem", T: 0, Y: k})
+			} else {
+				s.Ops = append(s.Ops, Op{K: "tset", T: 0, Y: k, V: fmt.Sprintf("v%d", nv)})
+			}
+		}
+		ct := r.Intn(len(s.Tasks))
+		at := r.Intn(len(s.Tasks[ct]) + 1)
+		s.Tasks[ct] = append(append(append([]Op{}, s.Tasks[ct][:at]...), Op{K: "tcommit", T: 0}), s.Tasks[ct][at:]...)
+		for t := range s.Tasks {
+			if t == ct && len(s.Tasks) > 1 {
+				continue
+			}
+			for i := 1 + r.Intn(3); i > 0; i-- {
+				at := r.Intn(len(s.Tasks[t]) + 1)
+				s.Tasks[t] = append(append(append([]Op{}, s.Tasks[t][:at]...), Op{K: "tget", T: 0, Y: keys[r.Intn(len(keys))]}), s.Tasks[t][at:]...)
+			}
+		}
+	}
 	s.Strategy = []string{"rw", "rw", "pct", "rub"}[r.Intn(4)]
 	s.SchedSeed = r.U64()
 	return s
